@@ -9,6 +9,8 @@ import Operon.Model.Telomere
   tickd | tickk c | renewd | renewk n|none r | apor      other call forms (bare call = defaults read from the signatures)
   set thr n | set allow b | set life q|none | set idle q|none   public configuration attribute re-assigned
   many n <op>                                            the op n times (1..3000), last observation printed
+  race j <opA> | <opB>                                   two overlapping calls (thread A held back before its j-th lock acquisition
+                                                          while B runs): ret `retA/retB`, events and lock trace tagged a/b
   cb 0|1|2                                               callbacks of the current lifecycle: return / on_phase_change raises /
                                                           on_senescence raises (a call ended by that exception prints ret `!`)
   start | tick c | err | hb | timeouts | renew n|none r | apo | term | rst | adv us     (`rst` = Telomere.reset(); a `reset` line separates cases)
@@ -174,9 +176,58 @@ def manyLoop (f : DSt → DSt × String) : Nat → DSt → String → DSt × Str
   | 0, d, o => (d, o)
   | k + 1, d, _ => let r := f d; manyLoop f k r.1 r.2
 
+def raceOk : List String → Bool
+  | h :: _ => ["start", "tick", "err", "hb", "timeouts", "renew", "apo", "term", "rst", "tickd", "tickk", "renewd", "renewk",
+      "apor"].contains h
+  | [] => false
+
+def stripTags (o : String) : String × String :=
+  match o.splitOn " ## " with
+  | [a, t] => (a, t)
+  | a :: _ => (a, "")
+  | [] => ("", "")
+
+/-- `[N>A,sen:dep]` with every event prefixed by the thread that delivered it -/
+def tagEvs (tag : String) (e : String) : List String :=
+  (((e.drop 1).dropEnd 1).toString.splitOn ",").filter (· ≠ "") |>.map (tag ++ ·)
+
+def tagLock (tag : String) (l : String) : String :=
+  if l = "-" then "" else String.join (l.toList.map fun c => tag ++ String.singleton c)
+
+/-- `race j <opA> | <opB>`: two overlapping calls on the current lifecycle; they take effect one after the other, in the
+    order `raceOps` says (each through `step1`, so callbacks that raise and the lock kind are honoured) -/
+def stepRace (d : DSt) (j : Nat) (ta tb : List String) : DSt × String :=
+  match parseOp ta, parseOp tb, d.w.get d.cur with
+  | some a, some _, some i =>
+    if d.dead.contains d.cur then (d, "dead") else
+    let bf := bFirst j (step i.cfg i.st a).lock
+    let (t1, t2, g1, g2) := if bf then (tb, ta, "b", "a") else (ta, tb, "a", "b")
+    let (d1, o1) := step1 d t1
+    let (d2, o2) := step1 d1 t2
+    let (o1, tags1) := stripTags o1
+    let (o2, tags2) := stripTags o2
+    if o1 = "hang" ∨ o2 = "hang" then (d2, "hang ## race " ++ tags1 ++ " " ++ tags2) else
+    let w1 := o1.splitOn " "
+    let w2 := o2.splitOn " "
+    if w1.length ≠ 15 ∨ w2.length ≠ 15 then (d2, "bad-op") else
+    let r1 := w1.getD 0 "?"
+    let r2 := w2.getD 0 "?"
+    let ret := if bf then r2 ++ "/" ++ r1 else r1 ++ "/" ++ r2
+    let lk := tagLock g1 (w1.getD 9 "-") ++ tagLock g2 (w2.getD 9 "-")
+    (d2, joinSp ([ret] ++ (w2.drop 1).take 7 ++ [showList (tagEvs g1 (w1.getD 8 "[]") ++ tagEvs g2 (w2.getD 8 "[]")),
+      if lk = "" then "-" else lk] ++ w2.drop 10) ++ " ## race " ++ (if bf then "race:b-first " else "race:a-first ") ++ tags1 ++ " " ++ tags2)
+  | _, _, _ => (d, "bad-op")
+
 /-- `many n <op>`: the op n times (1..3000), the last observation is printed -/
 def step' (d : DSt) (toks : List String) : DSt × String :=
   match toks with
+  | "race" :: j :: rest =>
+    match j.toNat? with
+    | some jn =>
+      let ta := rest.takeWhile (· ≠ "|")
+      let tb := (rest.dropWhile (· ≠ "|")).drop 1
+      if jn ≤ 3 ∧ raceOk ta ∧ raceOk tb ∧ rest.contains "|" then stepRace d jn ta tb else (d, "bad-op")
+    | none => (d, "bad-op")
   | "many" :: n :: rest =>
     match n.toNat? with
     | some k =>
